@@ -378,17 +378,23 @@ class LeaderNode(Entity):
             },
         )
 
-        # Schedule next anti-entropy round
-        next_ae = Event(
-            time=self.now.__class__.from_seconds(
-                self.now.to_seconds() + self._anti_entropy_interval
-            ),
-            event_type="AntiEntropy",
-            target=self,
-            daemon=True,
-        )
+        # Schedule next anti-entropy round. With anti-entropy disabled (interval 0)
+        # a round that was triggered by hand is a one-off: re-arming it at now + 0
+        # would re-deliver it at the current instant forever.
+        events = [ae_event]
+        if self._anti_entropy_interval > 0:
+            events.append(
+                Event(
+                    time=self.now.__class__.from_seconds(
+                        self.now.to_seconds() + self._anti_entropy_interval
+                    ),
+                    event_type="AntiEntropy",
+                    target=self,
+                    daemon=True,
+                )
+            )
 
-        yield 0.0, [ae_event, next_ae]
+        yield 0.0, events
         return None
 
     def _handle_anti_entropy_request(
